@@ -20,7 +20,8 @@ import (
 // Case {id, s, cx}: s is the byte string (int array) assigned to the template variable x, cx the
 // list of context names to render it in (empty or absent = every context).
 // Observation {id, ctx, s, out, st}: out is the slice of the real rendered output between the
-// fixed text that surrounds {{ x }} in the template of that context; st is "ok", or the class of
+// fixed text that surrounds {{ x }} in the template of that context (in css_file_dq_tail the slice
+// also holds the fixed letter that follows the value inside the string); st is "ok", or the class of
 // what happened instead ("runerr", "hostpanic", "nodelim": the fixed text was not found around the
 // value - then out is the whole output).  No decoding and no expectation is computed here: the
 // TLA+ Trace specification decodes and judges.
@@ -29,7 +30,8 @@ type context struct {
 	name string
 	file string // the extension selects the template format
 	pre  string // template text before {{ x }}
-	post string // template text after {{ x }}
+	tail string // fixed template text between {{ x }} and post that is part of the observed slice
+	post string // template text after the observed slice
 	t    *scriggo.Template
 }
 
@@ -43,6 +45,7 @@ var contexts = []*context{
 	{name: "json_file", file: "index.json", pre: `"`, post: `"`},
 	{name: "css_style_dq", file: "index.html", pre: `<style>a{b:"`, post: `"}</style>`},
 	{name: "css_file_sq", file: "index.css", pre: `a{b:'`, post: `'}`},
+	{name: "css_file_dq_tail", file: "index.css", pre: `a{b:"`, tail: `c`, post: `"}`}, // a hex letter right after the value
 	{name: "url_query_dq", file: "index.html", pre: `<a href="/p?q=`, post: `">`},
 	{name: "url_path_dq", file: "index.html", pre: `<a href="/`, post: `">`},
 	{name: "url_path_unq", file: "index.html", pre: `<a href=/`, post: `>`},
@@ -56,7 +59,7 @@ var (
 // build compiles every template once; they are reused (Run is safe for concurrent use).
 func build() {
 	for _, c := range contexts {
-		src := c.pre + `{{ x }}` + c.post
+		src := c.pre + `{{ x }}` + c.tail + c.post
 		t, err := scriggo.BuildTemplate(scriggo.Files{c.file: []byte(src)}, c.file,
 			&scriggo.BuildOptions{Globals: native.Declarations{"x": (*string)(nil)}})
 		if err != nil {
